@@ -146,7 +146,7 @@ def logical_param_skeletons(rng):
 
 # built-in functions with every operand shape as argument, in every position (well-typed or not: a text that should
 # not compile but does is still evaluated by C13)
-TYPED_SHAPES = ["1", "'s'", "null", "@.a", "$.x[0]", "@", "@.*", "@..a", "@[0,1]", "$[*]", "length(@)", "count(@.*)", "value(@.*)",
+TYPED_SHAPES = ["1", "'s'", "null", "@.a", "$.x[0]", "@", "@.*", "@..a", "@[0,1]", "$[*]", "@[0:1]", "@[1:2]", "$[0:1:1]", "@[-1:]", "length(@)", "count(@.*)", "value(@.*)",
                 "match(@.a, 'b')", "search(@, 'a')", "@.a == 1", "1 == 1", "@.a && @.b", "!@.a", "(@.a)", "(@.a == 1)", "@[?@.a]"]
 TYPED_POSITIONS = ["$[?{c}]", "$[?{c} == 1]", "$[?1 != {c}]", "$[?length({c}) == 1]", "$[?count({c}) == 1]", "$[?value({c}) == 1]",
                    "$[?match({c}, 'a')]", "$[?search('a', {c})]", "$[?!{c}]", "$[?{c} && @.a]", "$[?({c})]", "$[?@[?{c}]]",
@@ -169,6 +169,11 @@ def typed_builtin_texts():
         out += [f"$[?{fn}()]", f"$[?{fn}() == 1]", f"$[?{fn}((@.a))]", f"$[?{fn}((@.a)) == 1]", f"$[?{fn}((@.a), 'a')]", f"$[?{fn}('a', (@.a))]",
                 f"$[?{fn}(((@.a)))]", f"$[?{fn}(@.a,) == 1]", f"$[?{fn}(,@.a)]"]
     return list(dict.fromkeys(out))
+
+
+# number spellings where the grammar wants an int (index, slice bounds), in every position
+SEEDS_INVALID_INTS = ["$[1e2]", "$[1E2]", "$[1e+2]", "$[-1e1]", "$[0:1e1]", "$[::2e0]", "$..[1e1]", "$[?@.c[1e0] == 2]", "$[1.0]", "$[1.5:2]", "$[0,1e0]",
+                      "$[1e-1]", "$[:1.0]", "$[?@[1e1:] ]", "$[+1]", "$[0x1]", "$[1_0]", "$[\u0661]", "$[１]", "$[1:２]"]
 
 
 # selector lists that continue after a nested filter, inside function arguments and nested brackets
